@@ -93,9 +93,17 @@ def gen_uamiv(rng, maxdim=4, maxsteps=3):
                 CPROJ=rng.choice([0, 1, 2]), ISTAG=rng.choice([0, 1]), TLAT1=rng.choice([33., 0.]),
                 TLAT2=rng.choice([45., 0.]))
     data = [[[[rand_f32_bits(rng) for _ in range(nx * ny)] for _ in range(nz)] for _ in range(nspec)] for _ in range(nt)]
+    with_etflag = rng.random() < 0.5
+    if with_etflag and rng.random() < 0.4:
+        # the CAMx way of writing an end at midnight: hour 24 of the day that ends (what the reader returns for daily files)
+        for i in range(nt):
+            b = t0 + dt.timedelta(hours=tstep * (i + 1))
+            if b.hour == 0 and b.minute == 0:
+                y_ = b - dt.timedelta(days=1)
+                etflag[i] = [int(y_.strftime('%Y%j')), 240000]
     return dict(name=rng.choice(NAMES), note=rng.choice(['verif note', 'CAMx v6 test', '']), itzon=rng.choice([0, 6, -5]),
                 grid=grid, nx=nx, ny=ny, nz=nz, species=species, tflag=tflag, etflag=etflag,
-                with_etflag=rng.random() < 0.5, tstep=tstep, data=data)
+                with_etflag=with_etflag, tstep=tstep, data=data)
 
 
 def gen_uamiv_at(rng, y, j, h, with_etflag=False, tstep=1):
